@@ -2,6 +2,7 @@
 C06 — Emitted bytecode respects the stack contract the unchecked VM relies on.
 -/
 import LaytheVerif.Model.Verifier
+import LaytheVerif.Model.EffectRows
 import LaytheVerif.Model.Encode
 namespace LaytheVerif.C06
 open LaytheVerif.Gen LaytheVerif.Verifier
@@ -23,6 +24,72 @@ theorem C06_stackEffect_nofall :
     Sym.Return.stackEffect = -1 ∧ Sym.Raise.stackEffect = -1 ∧ Sym.ContinueUnwind.stackEffect = 0 ∧
     (∀ l, (Sym.Jump l).stackEffect = 0 ∧ (Sym.Loop l).stackEffect = 0) := by
   simp [Sym.stackEffect]
+
+/-- **[G] the whole table, row by row.**  Every row of the regenerated `stack_effect` table — the rows of the
+instructions that never fall through included — is the model's `modelDelta` (`Model/EffectRows.lean`).  This is the
+statement whose *executable* form the check's search uses: when an edit of the table re-opens it, `differingRows`
+(run by the driver) names the rows that differ and the directed generator draws its programs around those
+instructions. -/
+theorem C06_stackEffect_eq_modelDelta (i : Sym) : i.stackEffect = modelDelta i := by
+  cases i <;> simp [modelDelta, vmEffect, Sym.stackEffect] <;> omega
+
+theorem C06_rows_agree (i : Sym) : rowAgrees i = true := by
+  simp [rowAgrees, C06_stackEffect_eq_modelDelta]
+
+/-- On the unchanged table the executable row comparison finds nothing ... -/
+theorem C06_no_differing_rows : differingRows = [] := by
+  simp [differingRows, List.filter_eq_nil_iff, C06_rows_agree]
+
+/-- ... and whatever it reports on an edited table is a row that really differs (no false focus). -/
+theorem C06_differingRows_sound (i : Sym) (h : i ∈ differingRows) : i.stackEffect ≠ modelDelta i := by
+  simp [differingRows, rowAgrees] at h
+  exact h.2
+
+/- The sample instructions the comparison runs over contain every variant of the instruction set, the ones the seeded
+rounds edited among them (non-vacuity of `C06_no_differing_rows`: the filter runs over a list that covers the table;
+evaluated, `sampleSyms` parses its instructions from text, which the kernel does not unfold). -/
+#guard symNames.all fun n => sampleSyms.any fun i => variantName i == n
+#guard sampleSyms.contains (Sym.GetSuper 0) && sampleSyms.contains Sym.Send && sampleSyms.contains (Sym.Call 2) &&
+  sampleSyms.contains (Sym.PushHandler 1 2) && sampleSyms.contains (Sym.CaptureIndex (.Local 1))
+
+/-- The instructions whose successors `succs` takes from `vmEffect` in its generic branch. -/
+def tableDriven : Sym → Bool
+  | .Return | .Raise | .ContinueUnwind | .CaptureIndex _ | .PushHandler _ _ | .PopHandler | .Closure _ => false
+  | _ => true
+
+/-- **C06_fallthrough_tracks_table.**  What a row of the table is *for*: wherever the depth-abstract machine steps over
+an instruction by falling through, the depth of the successor is the depth before plus the table row (and the handler
+stack is untouched).  So the running count of the compiler's linear pass (`apply_stack_effects`: `slots +=
+stack_effect`) is the machine's depth along every straight line, which is the depth it records in the next
+`PushHandler` (`safe_handler_depth` demands exactly that value) and maximises into `max_slots` (`safe_capacity`). -/
+theorem C06_fallthrough_tracks_table {c : FunCtx} {code : List Sym} {pc : Nat} {s : St} {l : List (Nat × St)} {i : Sym}
+    (hi : code[pc]? = some i) (hg : tableDriven i = true) (po pu : Nat) (hv : vmEffect i = some (po, pu))
+    (h : succs c code pc s = some l) :
+    ∃ s' rest, l = (pc + 1, s') :: rest ∧ (s'.depth : Int) = (s.depth : Int) + i.stackEffect ∧
+      s'.handlers = s.handlers := by
+  have he := C06_stackEffect_eq_vmEffect i po pu hv
+  unfold succs at h
+  rw [hi] at h
+  simp only at h
+  split at h
+  · simp at h
+  split at h
+  · simp at h
+  split at h
+  · simp at h
+  split at h
+  · simp at h
+  rename_i ex hex js hjs
+  cases i <;> simp [tableDriven] at hg <;> simp only [hv] at h <;>
+    (split at h
+     · simp at h
+     split at h
+     · simp at h
+     simp at h
+     subst h
+     refine ⟨_, _, rfl, ?_, rfl⟩
+     simp only
+     omega)
 
 /-! ### soundness of the certificate checker -/
 
@@ -237,6 +304,18 @@ example : isOk (verify sampleCtx sampleCode) = true := by decide
 the pinned compiler recorded (1: parameters ignored) is rejected. -/
 theorem C06_witness_param_handler :
     isOk (verify sampleCtx ((Sym.PushHandler 1 0) :: sampleCode.tail)) = false := by decide
+
+/-- **C06_witness_super_call** (seeded round 4): a method `m(a) { super.m(a); try { raise .. } catch .. }` as the
+compiler emits it when the row of `GetSuper` says 0 instead of −1 — the recorded handler depth is one above the live
+depth (3 = slot 0, the parameter, nothing else) and the function is rejected; with the right depth it is accepted. -/
+def superCtx : FunCtx := { arity := 1, maxSlots := 5, captures := 1, consts := [none, none, none] }
+def superCode (recorded : Nat) : List Sym :=
+  [.GetLocal 0, .GetCapture 0, .GetSuper 0, .GetLocal 1, .Call 1, .Drop, .PushHandler recorded 0, .GetModSym 1, .Constant 2,
+   .Call 1, .Raise, .Label 0, .GetModSym 1, .CheckHandler 2, .FinishUnwind, .PopHandler, .GetError, .DropN 1, .Jump 1,
+   .Label 2, .ContinueUnwind, .Label 1, .GetLocal 1, .Return]
+
+theorem C06_witness_super_call :
+    isOk (verify superCtx (superCode 2)) = true ∧ isOk (verify superCtx (superCode 3)) = false := by decide
 
 /-- **C06_witness_send** (D25, repaired): with the pinned table entry `Send ↦ 0` the lemma
 `C06_stackEffect_eq_vmEffect` is false — the VM pops the channel. -/
